@@ -147,6 +147,7 @@ class Sim:
         self.racy_fired = 0
         self._pct_points = None
         self._in_gc = False
+        self._in_inv = False
 
     # ---------------------------------------------------------------- logging (no rng, no clock)
     def log(self, *a):
@@ -304,11 +305,19 @@ class Sim:
 
     # ---------------------------------------------------------------- scheduling
     def _check_invariants(self):
-        for inv in self.invariants:
-            r = inv()
-            if r is not None:
-                self.invariants.remove(inv)
-                self.violation(r[0], r[1])
+        # invariants are harness observations: no pre-emption (line events) while they are evaluated
+        if self._in_inv:
+            return
+        self._in_inv = True
+        try:
+            for inv in list(self.invariants):
+                r = inv()
+                if r is not None:
+                    if inv in self.invariants:
+                        self.invariants.remove(inv)
+                    self.violation(r[0], r[1])
+        finally:
+            self._in_inv = False
 
     def pick(self, me):
         """Choose the next thread to run. `me` may be runnable or blocked/done/dead."""
@@ -654,7 +663,7 @@ def enable_line_preemption(path_prefixes):
 
     def on_line(code, lineno):
         s = _SIM
-        if s is None or s.aborting or s.line_p <= 0.0:
+        if s is None or s.aborting or s.line_p <= 0.0 or s._in_inv:
             return
         me = _BY_IDENT.get(_real_get_ident())
         if me is None:
